@@ -318,6 +318,14 @@ pub fn run(args: &Args) -> i32 {
         run_xo(xo, fl, len, draws, args.seed, &mut rep);
         rep
     });
+    // "uniform crossover decides every position independently": at every distance, also
+    // beyond one machine word
+    let lags = run_shards(8, args.threads, 16 << 20, |i| {
+        let mut rep = Report::new();
+        crate::c12::uniform_xo_lags("C10/Uniform", i % 4, if i < 4 { 70 } else { 130 }, draws / 5, args.seed, &mut rep);
+        rep
+    });
+    rep.merge(lags);
     let mut extra = Report::new();
     random_parents(args.seed, args.tier.pick(200_000, 4_000_000), &mut extra);
     different_lengths(&mut extra);
